@@ -58,6 +58,25 @@ def apalache_inductive(ctx):
     return res
 
 
+def generated(ctx):
+    """spec -> code: TLC simulates PoolGen.tla; the recorder executes the behaviours on a real PoolAllocator (shape 2/1/3)."""
+    num, depth = {"quick": (150, 30), "thorough": (3000, 50)}[ctx.tier]
+    cfg = "SPECIFICATION Spec\nCONSTANTS\n  Ch = 2\n  L = 1\n  K = 3\n  Depth = %d\n  Outstanding = 3\nINVARIANT Emit\nCHECK_DEADLOCK FALSE\n" % depth
+    rc, out = ctx.tlc("PoolGen", cfg, workers=1, timeout=900, extra=["-simulate", "num=%d" % num, "-depth", str(depth * 3), "-seed", str(ctx.seed)], tag="PoolGen")
+    scripts = []
+    for line in out.splitlines():
+        m = re.match(r'^<<"SCRIPT", "(.*)">>\s*$', line)
+        if m:
+            scripts.append(m.group(1).replace('\\"', '"'))
+    if len(scripts) < num // 2:
+        raise Infra("PoolGen produced %d of %d behaviours:\n%s" % (len(scripts), num, tail(out)))
+    p = os.path.join(ctx.work, "poolscripts.ndjson")
+    open(p, "w").write("\n".join(scripts) + "\n")
+    st = ctx.record("poolscript", extra=["--script", p])
+    ctx.note("TLC generated %d pool behaviours of depth %d; replayed on the real pool: %d events" % (len(scripts), depth, st["events"]))
+    return st
+
+
 def pool_mismatches(ctx, stats):
     files = [f for st in stats for f in st["files"]]
     mm, tot = validate_files(ctx, "PoolTrace", POOL_TRACE_CFG, files)
@@ -73,7 +92,7 @@ def run(ctx):
     viol = 0
     races = 0
     if ctx.prop == "C10":
-        stats = [ctx.record("poolseq"), ctx.record("poolzero")]
+        stats = [ctx.record("poolseq"), ctx.record("poolzero"), generated(ctx)]
     else:
         env = {"GORACE": "halt_on_error=0 exitcode=0"}
         st = ctx.record("poolconc", race=True, env=env)
